@@ -120,18 +120,22 @@ func (g *Generator) generateEnumLookupMaps(gf *protogen.GeneratedFile, enum *pro
 	gf.P()
 
 	gf.P("var ", lowerName, "FromJSON = map[string]", enumName, "{")
+	// keys already written: a map literal must not repeat a key
+	keys := make(map[string]bool, len(enum.Values))
 	for _, value := range enum.Values {
 		customValue := annotations.GetEnumValueMapping(value)
 		jsonValue := customValue
 		if jsonValue == "" {
 			jsonValue = string(value.Desc.Name())
 		}
+		keys[jsonValue] = true
 		gf.P("\"", jsonValue, "\": ", value.GoIdent.GoName, ",")
 	}
 	for _, value := range enum.Values {
 		customValue := annotations.GetEnumValueMapping(value)
-		if customValue != "" {
-			protoName := string(value.Desc.Name())
+		protoName := string(value.Desc.Name())
+		if customValue != "" && !keys[protoName] {
+			keys[protoName] = true
 			gf.P("\"", protoName, "\": ", value.GoIdent.GoName, ",")
 		}
 	}
